@@ -156,6 +156,8 @@ struct World {
     discarded_yes: BTreeSet<(u8, u8)>,
     /// shard s applied t's writes
     applied: BTreeSet<(u8, u8)>,
+    /// an abort message for (t, s) was emitted (by the production sender or the trusted driver)
+    abort_sent: BTreeSet<(u8, u8)>,
     dups_left: u8,
     timeouts_left: u8,
     client_aborts_left: u8,
@@ -180,6 +182,7 @@ impl World {
             votes_accepted: BTreeMap::new(),
             discarded_yes: BTreeSet::new(),
             applied: BTreeSet::new(),
+            abort_sent: BTreeSet::new(),
             dups_left: cfg.dups,
             timeouts_left: cfg.timeouts,
             client_aborts_left: cfg.client_aborts,
@@ -216,6 +219,7 @@ impl World {
                 if let (Some(t), Some(s)) = (self.slot_of(a.tx_id), to.strip_prefix("shard-").and_then(|x| x.parse::<u8>().ok())) {
                     if (s as usize) < self.parts.len() {
                         self.net.insert(Msg::Abort { t, s }, m.clone());
+                        self.abort_sent.insert((t, s));
                     }
                 }
             }
@@ -352,6 +356,7 @@ impl World {
                     self.decide(*t, Decision::Abort);
                     for s in 0..cfg.shards {
                         self.net.insert(Msg::Abort { t: *t, s }, Message::TxAbort(TxAbortMsg { tx_id: id, reason: "client".into(), shards: vec![s as usize] }));
+                        self.abort_sent.insert((*t, s));
                     }
                 }
             }
@@ -362,6 +367,17 @@ impl World {
             if let Some(id) = self.ids[t as usize] {
                 if self.decisions[t as usize].contains(&Decision::Abort) && self.coord.get(id).is_some_and(|x| matches!(x.phase, TxPhase::Prepared | TxPhase::Committing | TxPhase::Committed)) {
                     self.fail("aborted-tx-still-committable", format!("t{t} was aborted but the coordinator holds it in phase {:?}", self.coord.get(id).map(|x| x.phase)));
+                }
+            }
+        }
+        // every participant is told an abort decision: a decision the coordinator takes on its own
+        // (timeout sweep, refused vote) is followed by an abort message to every shard of the transaction
+        for t in 0..self.ids.len() as u8 {
+            if self.decisions[t as usize].contains(&Decision::Abort) {
+                for s in 0..cfg.shards {
+                    if !self.abort_sent.contains(&(t, s)) {
+                        self.fail("abort-not-sent-to-participant", format!("t{t} was aborted by the coordinator but no abort message was emitted for shard {s} (it may be prepared and holding locks)"));
+                    }
                 }
             }
         }
